@@ -237,13 +237,15 @@ class Source:
         e = self._item_end(s)
         return s, e
 
-    def find_fn(self, name, lo=0, hi=None, nth=0):
+    def find_fn(self, name, lo=0, hi=None, nth=0, top_only=False):
         """find `fn <name>` at any depth within [lo,hi) -> (start_with_attrs, kw_start, end)"""
         b = self.blank
         hi = len(b) if hi is None else hi
         hits = []
         for m in re.finditer(r'\bfn\s+' + re.escape(name) + r'\b', b[lo:hi]):
             s = lo + m.start()
+            if top_only and (b.count('{', lo, s) != b.count('}', lo, s)):
+                continue
             e = self._item_end(s)
             hits.append((self._attr_start(s, lo), s, e))
         if len(hits) <= nth:
